@@ -3,7 +3,7 @@ from .C02 import e2_jobs, META as _M
 
 META = dict(_M)
 META["level"] = "other"
-CLASSES = ["contracts.C15_all:Depolarized", "contracts.C15_all:SingleSettingRepetitions", "contracts.C15_all:FlowTestSettingUnit", "contracts.C15_all:RandomLindbladianDraws", "contracts.C15_all:FlowRandomNoiseStreams", "contracts.C15_all:PhysicalityCheckOfARun"]
+CLASSES = ["contracts.C15_all:Depolarized", "contracts.C15_all:SingleSettingRepetitions", "contracts.C15_all:FlowTestSettingUnit", "contracts.C15_all:RandomLindbladianDraws", "contracts.C15_all:FlowRandomNoiseStreams", "contracts.C15_all:PhysicalityCheckOfARun", "contracts.C15_all:DepolarizedTesters", "contracts.C15_all:SimulationSettingCopy"]
 
 
 def jobs(tier, seed):
